@@ -247,6 +247,16 @@ def main(argv=None):
             else:
                 real.append((rec, path))
 
+    for rec in VECTOR_VIOLATIONS:
+        rec = dict(rec, property=prop_id)
+        h = hashlib.sha256(json.dumps(rec, sort_keys=True, default=str).encode()).hexdigest()[:12]
+        path = os.path.join(VERIF, "replays", "%s-%s.json" % (prop_id, h))
+        json.dump(rec, open(path, "w"), indent=1, default=str)
+        k = match_known(known, rec)
+        if k:
+            seen_known.setdefault(k["id"], (k, rec, path))
+        else:
+            real.append((rec, path))
     for kid, (k, rec, path) in seen_known.items():
         print("KNOWN-FINDING: property=%s %s" % (prop_id, k["text"]))
     for rec, path, rp in nonrepro:
@@ -282,6 +292,9 @@ def main(argv=None):
     return 0
 
 
+VECTOR_VIOLATIONS = []
+
+
 def validate_vectors(prop_id, mod, jobs):
     """vectors() yields (fn, params, witness): run natively, and symbolically with pinned inputs"""
     vecs = list(mod.vectors())
@@ -298,7 +311,12 @@ def validate_vectors(prop_id, mod, jobs):
     except Exception:
         return 0, ["translator validation: native batch failed: " + (p.stdout + p.stderr)[-800:]]
     for (f, prm, w), r in zip(vecs, out["results"]):
-        if r["status"] != "passed":
+        if r["status"] == "reproduced":
+            # the native harness fails on one of the repository's own vectors: a concrete,
+            # already replayed counterexample
+            VECTOR_VIOLATIONS.append(dict(case="vector:" + f, fn=f, params=prm, label=(r.get("failed") or ["?"])[0],
+                                          witness=w, replay_result=r))
+        elif r["status"] != "passed":
             errs.append("translator validation: native harness %s%s on repository vector %s -> %s %s" % (
                 f, prm, json.dumps(w)[:120], r["status"], r.get("failed")))
     # symbolic with pinned inputs
@@ -308,6 +326,8 @@ def validate_vectors(prop_id, mod, jobs):
                 for i, (f, prm, w) in enumerate(vecs)]
         for (f, prm, w), fu in zip(vecs, futs):
             r = fu.result()
+            if any(v["witness"] == w and v["fn"] == f for v in VECTOR_VIOLATIONS):
+                continue
             if r.get("error") or r.get("violations") or r.get("feasible_paths", 0) < 1:
                 errs.append("translator validation: engine on pinned vector %s%s %s -> %s" % (
                     f, prm, json.dumps(w)[:120], r.get("error") or r.get("violations") or "no feasible path"))
